@@ -491,12 +491,12 @@ def xstack_effect(opcode, opc, oparg: int = 0, jump=None):
                     return [-1, -2, -3, -3, -2, -3, -3, -4, -2, -3, -3, -4][oparg]
                 elif (3, 6) <= version_tuple < (3, 11):
                     return [-1, -2, -2, -3, -2, -3, -3, -4, -2, -3, -3, -4][oparg]
-                elif 0 <= oparg <= 2:
-                    return [0, -1, -1][oparg]
-                else:
-                    return None
-            else:
-                return None
+            if version_tuple >= (3, 6):
+                # One value popped per flag bit (defaults, kwdefaults, annotations,
+                # closure); before 3.11 the qualified name is popped too.
+                flags = sum(1 for bit in (1, 2, 4, 8) if oparg & bit)
+                return -flags - (1 if version_tuple < (3, 11) else 0)
+            return None
     elif opname == "CALL" and version_tuple >= (3, 12):
         return -oparg - 1
     elif opname == "CALL_KW":
